@@ -145,6 +145,8 @@ type c04World struct {
 	A, B, C *xibctesting.TestChain
 	pathAB, pathAC *xibctesting.Path
 	self  string
+	validator string // operator address of A's validator (staking calls of mixed receipts)
+	proposal  uint64 // gov proposal in voting period (0 = none)
 	extra []string // extra destinations of wide histories (TSS clients; prefix-related names and case siblings)
 	tss   string // name of the TSS client on A
 	tssAddr string // bech32 of the TSS relayer (= A's sender)
